@@ -340,9 +340,26 @@ func (fx *FnExec) execLoop(li *loopInfo) {
 		}
 		if tr.keys[k] {
 			e.heapHavocFresh(st, k, allocBefore)
-		} else {
-			e.heapHavoc(st, k)
+			continue
 		}
+		// frame by object: when every write in the body goes to objects whose references are loop-invariant terms,
+		// only those rows are havocked
+		if !tr.anyRef[k] && len(tr.refs[k]) > 0 && len(tr.refs[k]) <= 4 {
+			var refs []string
+			ok := true
+			for r := range tr.refs[k] {
+				if !e.stableTerm(r, tr.seq0) {
+					ok = false
+					break
+				}
+				refs = append(refs, r)
+			}
+			sort.Strings(refs)
+			if ok && e.heapHavocRows(st, k, refs) {
+				continue
+			}
+		}
+		e.heapHavoc(st, k)
 	}
 	// allocation counter only grows
 	if _, ok := tr.keys[e.keyAlloc()]; ok || true {
